@@ -27,6 +27,9 @@ KINDS = [
     ('add_packet_foreign', True), ('add_packet_empty', False), ('add_packet_second_scalar', False),
     # a packet refused by a scalar loop that holds no packet yet (block b2: the loop is created for the purpose)
     ('add_packet_unknown_empty_scalars', True),
+    # a new scalar for a block whose scalar loop lost its only packet with its last stored value: the call is refused
+    # (the recorded C04 finding); whatever the reason, a refused call must not leave the item behind
+    ('set_value_refused_by_spent_scalar_loop', False),
     ('set_category_empty', False), ('set_category_of_scalar', False), ('set_category_of_scalar_null', False),
     ('remove_item_missing', False), ('stale_get_packets', False), ('stale_destroy', False),
     ('stale_set_category', False), ('stale_add_packet', False), ('stale_add_item', False),
@@ -171,6 +174,21 @@ class Sys(History):
             self.le = commit()
             self.leh = lh
             self.check_state(self.ci, 'fixture', 'fixture(scalars of b2)')
+        if kind == 'set_value_refused_by_spent_scalar_loop':
+            enames = ['_e1', '_e2']
+            rcs, commit = CM.op_create_loop(self.b2, '', enames)
+            rc, lh = L.create_loop(self.b2h, '', enames)
+            if rc != CIF_OK or not commit:
+                raise Mismatch('fixture:create_loop(scalars):%d' % rc, 'creating the scalar loop of the empty block -> %d' % rc)
+            ml = commit()
+            self.add_packet_checked(lh, self.b2, ml, [('_e1', ('char', 'only value', True))])
+            L.loop_free(lh)
+            rcs, commit = CM.op_remove_item(self.b2, '_e1')
+            rc = L.remove_item(self.b2h, '_e1')
+            if rc != CIF_OK or not commit:
+                raise Mismatch('fixture:remove_item:%d' % rc, 'removing the only valued scalar -> %d' % rc)
+            commit()
+            self.check_state(self.ci, 'fixture', 'fixture(spent scalar loop of b2)')
 
     def failing_call(self, kind, n, pos, in_tx):
         """performs the failing call; returns (label, rc, acceptable rcs when not in a transaction)"""
@@ -223,6 +241,16 @@ class Sys(History):
             L.packet_free(pk)
             L.loop_free(lh)
             return 'cif_loop_add_packet', rc, {CIF_WRONG_LOOP}
+        if kind == 'set_value_refused_by_spent_scalar_loop':
+            v = self.mk(('char', 'new scalar', True))
+            rc = L.set_value(self.b2h, '_e3', v)
+            L.value_free(v)
+            if rc == CIF_OK:
+                # the library no longer refuses this (the finding is repaired): there is no failing call to judge
+                rcs, commit = CM.op_set_value(self.b2, '_e3', ('char', 'new scalar', True))
+                commit()
+                return 'cif_container_set_value', None, set()
+            return 'cif_container_set_value', rc, ANYERR
         if kind == 'add_packet_unknown_empty_scalars':
             enames = [n for n, _ in self.le.names]
             lh = self.leh
@@ -423,6 +451,12 @@ def run_sys_case(ctx, idx, case):
                 raise Mismatch('fixture:get_packets:%d' % rc, 'cannot open the enclosing iterator: %d' % rc)
             L.it_next(it, 'null')
         label, rc, rcs = h.failing_call(kind, n, pos, it is not None)
+        if rc is None:
+            ctx.count('cases_whose_call_no_longer_fails')
+            if it is not None:
+                L.it_close(it)
+                L.loop_free(lh)
+            return
         ctx.add('op_rc', '%s:%s:%d' % (ctxname, label, rc))
         ctx.add('kinds', '%s/%s' % (kind, ctxname))
         ctx.count('failing_calls')
